@@ -85,7 +85,7 @@ def run(res, a):
         rep = json.load(open(a.replay))
         if rep["case"].startswith("sk "):
             stalled(res, a, [rep["case"]])
-        elif rep["case"].split(" ")[0] in ("cwsw", "cwrace"):
+        elif rep["case"].split(" ")[0] in ("cwsw", "cwrace", "cwdl"):
             extra(res, [{"id": "replay", "line": rep["case"], "kind": rep["case"].split(" ")[0]}])
         else:
             core.run_correspondence(res, FAMILY, [{"id": "replay", "line": rep["case"], "kind": "replay"}], mod)
@@ -97,6 +97,8 @@ def run(res, a):
         cases.append({"id": "sw%d" % i, "kind": "cwsw", "line": "cwsw %s %s %s %s" % (old, rb(rng, 32), "aa" + rb(rng, rng.choice([4, 1100])), "bb" + rb(rng, rng.choice([9, 2100])))})
     for i in range(4 if a.tier == "quick" else 16):
         cases.append({"id": "race%d" % i, "kind": "cwrace", "line": "cwrace %s 4 %d %d" % (rb(rng, 32), 300 if a.tier == "quick" else 3000, 2000 if a.tier == "quick" else 20000)})
+    for i in range(3 if a.tier == "quick" else 12):
+        cases.append({"id": "dl%d" % i, "kind": "cwdl", "line": "cwdl %s %s %s" % (rb(rng, 32), "aa" + rb(rng, rng.choice([4, 1100])), "bb" + rb(rng, rng.choice([9, 2100])))})
     extra(res, cases)
     stalled(res, a)
 
@@ -146,6 +148,9 @@ def extra(res, cases):
                     "in plaintext" if m.group(2) == "plain" else ("under the old session's key and counter" if m.group(2).startswith("old") else "undecryptable"))
             elif not (m.group(1) == ("old@0" if had_old else "plain")):
                 why = "the write that was in flight before the switch was sent as %s" % m.group(1)
+        elif c["kind"] == "cwdl":
+            if o != "ok":
+                why = "a write made while the server had a READ deadline in the past on the connection (as it has at the end of every request) did not go out like any other: " + o[:80]
         elif not o.startswith("ok "):
             why = "with the connection's reader decrypting incoming frames while writers write: " + o[:100]
         if why:
